@@ -389,6 +389,79 @@ fn run_c09(c: &C09Case) -> CaseResult {
     Ok(obs)
 }
 
+/// Child mode `vcheck __child-c09 <case json>`: one C09 case in a process of its own, where the
+/// System and Arbiter id counters start from zero (ids that coincide only there).
+pub fn child_c09_main(args: &[String]) -> ! {
+    let case: C09Case = match args.first().and_then(|a| serde_json::from_str(a).ok()) {
+        Some(c) => c,
+        None => {
+            println!("BAD-ARGS");
+            std::process::exit(3);
+        }
+    };
+    match check_c09(&case) {
+        Ok(_) => {
+            println!("OK");
+            std::process::exit(0);
+        }
+        Err(f) => {
+            println!("FAIL {} {}", f.sig, f.msg.replace('\n', " "));
+            std::process::exit(1);
+        }
+    }
+}
+
+/// Run a case in a fresh process (see `child_c09_main`).
+pub fn check_c09_fresh_process(c: &C09Case) -> CaseResult {
+    let exe = std::env::current_exe().map_err(|e| Fail::new("harness/setup", format!("{e}")))?;
+    let arg = serde_json::to_string(c).map_err(|e| Fail::new("harness/setup", format!("{e}")))?;
+    let out = std::process::Command::new(exe)
+        .arg("__child-c09")
+        .arg(arg)
+        .stdin(std::process::Stdio::null())
+        .stderr(std::process::Stdio::null())
+        .output()
+        .map_err(|e| Fail::new("harness/setup", format!("cannot start child: {e}")))?;
+    let text = String::from_utf8_lossy(&out.stdout).to_string();
+    let line = text.lines().last().unwrap_or("").to_string();
+    match out.status.code() {
+        Some(0) if line == "OK" => {
+            let mut obs = Obs::new();
+            obs.nontrivial = c.arbiters.iter().any(|f| matches!(f, Fate::StoppedJoined | Fate::Detached)) && c.arbiters.len() >= 2;
+            obs.label_if(c.arbiters.iter().any(|f| matches!(f, Fate::StoppedJoined)), "arbiter-ended-before-the-stop");
+            obs.label("fresh-process");
+            Ok(obs)
+        }
+        Some(1) if line.starts_with("FAIL ") => {
+            let rest = &line[5..];
+            let (sig, msg) = rest.split_once(' ').unwrap_or((rest, ""));
+            Err(Fail::new(sig.to_string(), format!("in a fresh process (ids start at 0): {msg}")))
+        }
+        other => Err(Fail::new("harness/child", format!("child ended with {:?}: {:?}", other, line))),
+    }
+}
+
+/// the cases of the fresh-process part: 1..3 arbiters that are idle, stopped-and-joined early or
+/// detached, stop from the system thread or a foreign thread
+pub fn fresh_process_cases() -> Vec<C09Case> {
+    let fates = [Fate::Idle, Fate::StoppedJoined, Fate::Detached];
+    let mut v = vec![];
+    for n in 1..=3usize {
+        for code in 0..fates.len().pow(n as u32) {
+            let mut arbiters = vec![];
+            let mut k = code;
+            for _ in 0..n {
+                arbiters.push(fates[k % 3]);
+                k /= 3;
+            }
+            for from in [StopFrom::SystemTask, StopFrom::Foreign] {
+                v.push(C09Case { arbiters: arbiters.clone(), from, code: if code % 2 == 0 { 0 } else { 7 }, second: None, plain_run: false, jitter: [0, 0, 0], arbiter_between: false, sys_rt: 0 });
+            }
+        }
+    }
+    v
+}
+
 // ================================================================================================
 // C10
 // ================================================================================================
@@ -434,6 +507,9 @@ pub struct C10Case {
     /// the thread arbiter is created through `Arbiter::with_tokio_rt`
     #[serde(default)]
     pub custom_rt: bool,
+    /// ... with a multi-thread runtime (commands must still run on the arbiter's own thread)
+    #[serde(default)]
+    pub custom_rt_multi: bool,
     /// the sender threads belong to another System (each creates one of its own before sending)
     #[serde(default)]
     pub foreign_senders: bool,
@@ -517,7 +593,14 @@ fn run_c10(c: &C10Case) -> CaseResult {
     let arb = if c.system_arbiter {
         None
     } else if c.custom_rt {
-        Some(Arbiter::with_tokio_rt(|| tokio::runtime::Builder::new_current_thread().enable_all().build().unwrap()))
+        let multi = c.custom_rt_multi;
+        Some(Arbiter::with_tokio_rt(move || {
+            if multi {
+                tokio::runtime::Builder::new_multi_thread().worker_threads(2).enable_all().build().unwrap()
+            } else {
+                tokio::runtime::Builder::new_current_thread().enable_all().build().unwrap()
+            }
+        }))
     } else {
         Some(Arbiter::new())
     };
@@ -904,6 +987,7 @@ fn run_c10(c: &C10Case) -> CaseResult {
     obs.label_if(c.system_arbiter, "system-arbiter");
     obs.label_if(c.prior_system, "second-system-on-this-thread");
     obs.label_if(c.custom_rt && !c.system_arbiter, "with_tokio_rt");
+    obs.label_if((c.custom_rt && c.custom_rt_multi && !c.system_arbiter) || (c.system_arbiter && c.sys_rt % 3 == 2), "arbiter-on-multi-thread-runtime");
     obs.label_if(c.foreign_senders && nsend >= 2, "senders-of-another-system");
     obs.label_if(c.sys_rt % 3 != 0, "system-with_tokio_rt");
     obs.label_if(c.prior_system && c.system_arbiter && c.ops.iter().any(|(_, o)| matches!(o, COp::Spawn { k: Kind::Nested })), "current-arbiter-used-in-second-system");
@@ -978,7 +1062,7 @@ pub mod gen {
             1 => Just(COp::Stop),
             1 => any::<u8>().prop_map(|n| COp::Burst { n }),
         ];
-        (prop::collection::vec((0u8..3, op), 1..12), 1u8..4, prop::bool::weighted(0.3), [0u16..300, 0u16..600], prop::bool::weighted(0.4), prop::bool::weighted(0.3), prop::bool::weighted(0.3), prop_oneof![3 => Just(0u8), 1 => Just(1u8), 1 => Just(2u8)])
-            .prop_map(|(ops, senders, system_arbiter, jitter, prior_system, custom_rt, foreign_senders, sys_rt)| C10Case { ops, senders, system_arbiter, jitter, prior_system, custom_rt, foreign_senders, sys_rt })
+        (prop::collection::vec((0u8..3, op), 1..12), 1u8..4, prop::bool::weighted(0.3), [0u16..300, 0u16..600], prop::bool::weighted(0.4), prop::bool::weighted(0.3), prop::bool::weighted(0.3), prop_oneof![3 => Just(0u8), 1 => Just(1u8), 1 => Just(2u8)], any::<bool>())
+            .prop_map(|(ops, senders, system_arbiter, jitter, prior_system, custom_rt, foreign_senders, sys_rt, custom_rt_multi)| C10Case { ops, senders, system_arbiter, jitter, prior_system, custom_rt, foreign_senders, sys_rt, custom_rt_multi })
     }
 }
